@@ -3,6 +3,8 @@ package main
 import (
 	"bytes"
 	"fmt"
+	"sort"
+	"strings"
 
 	"github.com/pion/transport/v3/vnet"
 	"github.com/pion/transport/v3/zzvsched"
@@ -13,8 +15,63 @@ import (
 // for one datagram all 100 values of Intn(100) are enumerated, for streams of up
 // to three datagrams the boundary draws {0, chance-1, chance, 99}.
 
-func c16scenario(chance, stream int) *explore.Scenario {
+func c16menu(chance, stream int) []int64 {
+	if stream == 1 {
+		m := make([]int64, 100)
+		for i := range m {
+			m[i] = int64(i)
+		}
+		return m
+	}
+	set := map[int64]bool{0: true, 99: true}
+	for _, v := range []int64{int64(chance) - 1, int64(chance)} {
+		if v >= 0 && v <= 99 {
+			set[v] = true
+		}
+	}
+	var m []int64
+	for v := int64(0); v < 100; v++ {
+		if set[v] {
+			m = append(m, v)
+		}
+	}
+	return m
+}
+
+// others=true: between the datagrams of the stream other loss filters are constructed and used (a network
+// has one per link).  The draws of successive datagrams must stay independent: every combination of the
+// menu values is reachable (Final).  The global generator is modelled as a deterministic function of
+// (seed, position), so re-seeding it with a repeated value replays earlier draws.
+func c16scenario(chance, stream int, others ...bool) *explore.Scenario {
 	sc := &explore.Scenario{Name: fmt.Sprintf("loss chance=%d stream=%d", chance, stream), Bound: 0, NoFP: true}
+	withOthers := len(others) > 0 && others[0]
+	if withOthers {
+		sc.Name += " +other filters constructed in between"
+	}
+	combos := int64(1)
+	for i := 0; i < stream; i++ {
+		combos *= int64(len(c16menu(chance, stream)))
+	}
+	sc.Final = func(outcomes map[string]int64) *explore.Violation {
+		seqs := map[string]bool{}
+		for o := range outcomes {
+			if i := strings.Index(o, " forwarded="); i > 0 {
+				seqs[o[:i]] = true
+			}
+		}
+		if int64(len(seqs)) != combos {
+			var l []string
+			for k := range seqs {
+				l = append(l, k)
+			}
+			sort.Strings(l)
+			if len(l) > 8 {
+				l = l[:8]
+			}
+			return &explore.Violation{Sig: "C16 draws-not-independent", Msg: fmt.Sprintf("%s: %d datagrams with %d possible draw values each must be able to see all %d combinations of draws, but only %d are reachable (%v ...): the draws of successive datagrams are not independent, so the dropped fraction of a stream is not chance/100", sc.Name, stream, len(c16menu(chance, stream)), combos, len(seqs), l)}
+		}
+		return nil
+	}
 	sc.Make = func() (func(), func(*zzvsched.Exec) (string, *explore.Violation)) {
 		var draws []int64
 		var menuN []int64
@@ -28,26 +85,7 @@ func c16scenario(chance, stream int) *explore.Scenario {
 			if n != 100 {
 				return []int64{0, n - 1}
 			}
-			if stream == 1 {
-				m := make([]int64, 100)
-				for i := range m {
-					m[i] = int64(i)
-				}
-				return m
-			}
-			set := map[int64]bool{0: true, 99: true}
-			for _, v := range []int64{int64(chance) - 1, int64(chance)} {
-				if v >= 0 && v <= 99 {
-					set[v] = true
-				}
-			}
-			var m []int64
-			for v := int64(0); v < 100; v++ {
-				if set[v] {
-					m = append(m, v)
-				}
-			}
-			return m
+			return c16menu(chance, stream)
 		}
 		body := func() {
 			f, err := vnet.NewLossFilter(rec, chance)
@@ -64,6 +102,12 @@ func c16scenario(chance, stream int) *explore.Scenario {
 					c = vnet.ZZUDPChunk("10.0.0.1:1000", "10.0.0.2:2000", p)
 				}
 				sentStr = append(sentStr, c.String())
+				if withOthers && i > 0 {
+					// another link's filter is created (chance 0: it makes no draw of its own that would matter)
+					if _, err := vnet.NewLossFilter(vnet.ZZNewRecNIC(), 0); err != nil {
+						panic(err)
+					}
+				}
 				vnet.ZZPush(f, c)
 				fwdAfter = append(fwdAfter, len(rec.Got))
 			}
@@ -126,9 +170,12 @@ func init() {
 				out = append(out, c16scenario(c, 1))
 				out = append(out, c16scenario(c, 2))
 				out = append(out, c16scenario(c, 3))
+				if c >= 0 && c <= 100 && (c%10 == 0 || c == 1 || c == 99) {
+					out = append(out, c16scenario(c, 2, true), c16scenario(c, 3, true))
+				}
 			}
 			return out
 		},
-		Rule:        "for every chance in {-5..105 and out-of-range values: -1000, 1000, 2^31, 2^32, 2^32+50, 2^40, 306, 65586, -2^32+50, MaxInt, MinInt}: one datagram x all 100 values of the Intn(100) draw, and streams of 2 and 3 datagrams x the boundary draws {0,chance-1,chance,99}; oracle: exactly one draw from [0,100) per datagram, forwarded iff draw >= chance (hence exactly clamp(chance,0,100) of the 100 equally likely draws drop), survivors byte-identical, in order, once",
+		Rule:        "for every chance in {-5..105 and out-of-range values: -1000, 1000, 2^31, 2^32, 2^32+50, 2^40, 306, 65586, -2^32+50, MaxInt, MinInt}: one datagram x all 100 values of the Intn(100) draw, and streams of 2 and 3 datagrams x the boundary draws {0,chance-1,chance,99}; oracle: exactly one draw from [0,100) per datagram, forwarded iff draw >= chance (hence exactly clamp(chance,0,100) of the 100 equally likely draws drop), survivors byte-identical, in order, once; per scenario the SET of explored draw sequences must be the full product of the menus (draws of successive datagrams independent), also when other loss filters are constructed between the datagrams (the global generator is modelled as a deterministic function of seed and position)",
 		Assumptions: []string{"math/rand.Intn is uniform; the statistical clause of the property is replaced by exact enumeration of the draw space"}})
 }
